@@ -21,3 +21,5 @@ def run(ctx: Ctx) -> None:
     ctx.do(A.rule_det_pure, f'{A.KA}.greedy_assignment')
     ctx.do(A.rule_det_hash, ('kfac.assignment',))
     ctx.do(A.rule_greedy, 'KAISA')
+    ctx.do(A.rule_coh_grid)
+    ctx.do(A.rule_greedy, 'GPT')
